@@ -275,6 +275,8 @@ func (b *c08B) comment(form int, free, val int) {
 		tag("ab", "b", "")
 		b.put(", ")
 		tag("b", "v"+b.slot(val), "")
+		b.put(", ")
+		tag("b", "wxyz", "") // the same name again, with a value of another length
 	}
 }
 
